@@ -252,6 +252,7 @@ FEATURE_STRATA = [
     "feature|post-load-source-toggled",
     "feature|post-load-model-source-toggled",
     "feature|post-load-source-added",
+    "feature|post-load-data-replaced",
 ]
 
 
@@ -1319,6 +1320,11 @@ def gen_fit(rng, ftype, stage, tier, force):
         ops.append(["fmt", {"latex_name": "f_{%d}" % int(rng.integers(0, 9)), "par_latex": {pnames[0]: "\\alpha_0"}, "latex_expression": None if ftype == "indexed" else "{%s} \\cdot {x}" % pnames[0], "expression": None if ftype == "indexed" else "{%s} * {x}" % pnames[0]}])
     case["ops"] = [scale_op(op, s) for op in ops]
     case["post_ops"] = [scale_op(op, s) for op in gen_post_ops(rng, ftype, ops, pnames, pvals, n, ys, bool(force.get("rich")))]
+    if ftype == "hist" and "edges" in spec and "entries" in spec and (force.get("rich") or rng.random() < 0.5):
+        # the data of both fits is replaced by a histogram of the same number of bins in another frame: the reloaded fit has to
+        # rebuild its model with the bin evaluation and the density flag it was written with
+        e = np.array(spec["edges"], dtype=float)
+        case["post_ops"].append(["set_data", {"edges": [_r(v, 6) for v in e[0] + (e - e[0]) * 0.9], "entries": list(spec["entries"][: max(3, len(spec["entries"]) // 2)])}])
     if ftype != "unbinned" and fid in COST_BASE:
         how = force.get("cost_object") or (str(rng.choice(["default", "nondefault"])) if (not force and rng.random() < 0.16) else None)
         if how:
@@ -1582,6 +1588,8 @@ def features(case):
                 f["strata"].add("post-load-model-source-toggled" if op[1] in model_sources else "post-load-source-toggled")
             elif op[0] in ("add_error", "add_matrix_error"):
                 f["strata"].add("post-load-source-added")
+            elif op[0] == "set_data":
+                f["strata"].add("post-load-data-replaced")
         co = case.get("cost_object")
         if co:
             f["strata"].add("cost-object-nondefault-options" if co.get("options") else "cost-object-default-options")
@@ -1969,6 +1977,23 @@ def refit(h, fit, re, case):
         # that the minimum has a flat direction and the reported sigma is no yardstick (degenerate-minimum policy: positions not compared)
         ctx.discard("refit-minimum-degenerate")
         return
+    if bad and not any(b[1] == "fixed" for b in bad):
+        # explain-check (same policy as the two-attractor cases of C06): started at the end point of the reloaded fit, the ORIGINAL
+        # fit stays there with the same cost - the cost function has two minima and the two minimisations, which start with different
+        # step sizes (those are no part of the written state), were caught by different ones; that is a property of the problem
+        try:
+            with time_limit(40.0):
+                fit.set_all_parameter_values(pb)
+                fit.do_fit()
+            pc = np.array(fit.parameter_values, dtype=float)
+            cc = float(fit.cost_function_value)
+            sb = np.array(re.parameter_errors, dtype=float)
+            sb = np.where(np.isfinite(sb) & (sb > 0), sb, np.abs(sig))
+            if abs(cc - cb) <= tc + 1e-9 * abs(cb) and np.all(np.abs(pc - pb) <= 10 * ts * np.maximum(sb, sig) + 1e-9 * np.abs(pb)):
+                ctx.discard("refit-two-minima-of-the-same-cost-function")
+                return
+        except (Exception, OpTimeout):
+            pass
     h.verdict("refit", not bad, {"differences": bad, "sigma_tolerance": ts, "cost_tolerance": tc, "original": pa, "reloaded": pb, "path": "refit", "expected": ca, "got": cb})
     return True
 
